@@ -125,10 +125,20 @@ func (s *stdSvc) gServiceRURI(rt *rapid.T, label string, L *mTransport) AURI {
 		return AURI{Abs: rapid.SampledFrom([]string{"urn:service:sos", "urn:service:sos.police", "tel:+15551234", "tel:1900;phone-context=+1", "tel:+1555;ext=12;isub=%41"}).Draw(rt, label+".abs")}
 	case 4:
 		u = AURI{Scheme: "sip", Host: L.Addr, Port: L.Port}
+		if L.Port == 5060 && rapid.Bool().Draw(rt, label+".noport") {
+			u.Port = 0 // the default port designates the listener as well
+		}
 		if rapid.Bool().Draw(rt, label+".hasuser") {
 			u.User = user
 		}
-		u.Params = gURIParams(rt, label+".params")
+		if rapid.Bool().Draw(rt, label+".hasparams") {
+			if u.Port == 0 {
+				// without a port the transport decides the default port: no transport=tls here
+				u.Params = gParamList(rt, label+".params", 4, uriParamValAlpha, uriParamReserved)
+			} else {
+				u.Params = gURIParams(rt, label+".params")
+			}
+		}
 		return u
 	default:
 		u = AURI{Scheme: "sips", User: user, Host: "svc.test"}
